@@ -322,6 +322,12 @@ pub fn check(case: &Case, rec: &mut Rec) -> CheckResult {
             if case.stdin > 0 {
                 rec.class("input_on_stdin");
             }
+            if case.files.len() >= 2 && case.files[..case.files.len() - 1].iter().any(|f| f.is_empty()) {
+                rec.class("empty_file_before_the_last");
+            }
+            if case.rows().iter().any(|(k, _)| k.contains('\u{0}')) {
+                rec.class("key_with_nul_byte");
+            }
             groupings.insert(info.grouping.clone());
             if info.kv_batches >= 2 && info.generations >= 1 && has_repeats {
                 nontrivial_seen = true;
@@ -371,6 +377,11 @@ fn key_strategy() -> impl Strategy<Value = String> {
         2 => "[a-z0-9]{1,6}",
         1 => "[a-c ,\"]{1,4}".prop_filter("no leading/trailing space-only ambiguity", |s| !s.trim().is_empty()),
         1 => "(é|ü|☃)[a-b]{0,2}",
+        // keys around 8 bytes sharing long prefixes, and keys that differ only by trailing
+        // NUL / control bytes (lines may contain any byte but the line terminator)
+        1 => "[ab]{6,10}",
+        1 => "[ab]{0,2}\\x00{1,3}".prop_map(|s| s.replace("\\x00", "\u{0}")).prop_filter("non-empty", |s| !s.is_empty()),
+        1 => "[ab]{0,2}[\\x01\\x7f\t]{1,2}",
     ]
 }
 
@@ -410,8 +421,13 @@ pub fn case_strategy() -> impl Strategy<Value = Case> {
                 files[(i / per.max(1)).min(nfiles - 1)].push(r);
             }
             let n: usize = files.iter().map(|f| f.len()).sum();
-            (cfgs_strategy(n), prop_oneof![4 => Just(0u8), 1 => Just(1u8), 1 => Just(2u8)], prop::bool::weighted(0.15), prop_oneof![3 => Just(0u8), 1 => 1u8..=3]).prop_map(move |(cfgs, eol, bigvals, stdin)| {
+            (cfgs_strategy(n), proptest::collection::vec(0usize..8, 0..=2), prop_oneof![4 => Just(0u8), 1 => Just(1u8), 1 => Just(2u8)], prop::bool::weighted(0.15), prop_oneof![3 => Just(0u8), 1 => 1u8..=3]).prop_map(move |(cfgs, empties, eol, bigvals, stdin)| {
                 let mut files = files.clone();
+                // input files without any row, anywhere in the list
+                for e in empties {
+                    let at = e % (files.len() + 1);
+                    files.insert(at, vec![]);
+                }
                 if bigvals {
                     // values beyond 32 bits (sums of <= 40 rows cannot overflow)
                     for f in files.iter_mut() {
@@ -448,7 +464,7 @@ pub fn run(e: &Engine) {
     e.run_list("fixed-inputs", &fixed, |c| c.to_json(), check);
     e.max_shrink_iters.store(120, std::sync::atomic::Ordering::SeqCst);
     e.run_prop("random-inputs-x-configurations", e.tier.pick(1500, 40_000), case_strategy, |c| c.to_json(), check);
-    for cls in ["at_least_2_batches", "at_least_1_union_generation", "at_least_2_union_generations", "unique_keys_compared_with_sorted_build", "has_repeated_keys", "input_on_stdin"] {
+    for cls in ["at_least_2_batches", "at_least_1_union_generation", "at_least_2_union_generations", "unique_keys_compared_with_sorted_build", "has_repeated_keys", "input_on_stdin", "empty_file_before_the_last", "key_with_nul_byte"] {
         e.require_class(cls, 1);
     }
 }
